@@ -142,6 +142,9 @@ class CursorTranslator(Translator):
             self.path_types[nm + ".off"] = (64, True)
             return
         if isinstance(val, Addr):
+            if lv[0] == "local":
+                st["locals"][lv[1]] = val          # a pointer variable holding the address of a named object (`p_uid = &m->client_uid`)
+                return
             raise KError("address stored")
         super().write(lv, val, st)
 
@@ -376,13 +379,17 @@ class CursorTranslator(Translator):
                 if k0:
                     nm = "%s_%d" % (nm, k0 + 1)
                 a = self.rvalue(args[i], st)
-                if not (isinstance(a, Addr) and a.lv[0] == "local"):
-                    raise KError("out-parameter %d of %s is not the address of a local" % (i, fn))
+                if not isinstance(a, Addr):
+                    raise KError("out-parameter %d of %s is not the address of a named object" % (i, fn))
                 if nm not in self.used_inputs:
                     self.used_inputs.append(nm)
                 self.input_types[nm] = ct
                 lo, hi = trange(ct)
-                st["locals"][a.lv[1]] = E(nm, lo, hi, atom=True)
+                if a.lv[0] == "local":
+                    st["locals"][a.lv[1]] = E(nm, lo, hi, atom=True)
+                else:
+                    self.path_types[a.lv[1]] = ct
+                    Translator.write(self, a.lv, E(nm, lo, hi, atom=True), st)
             # one input per call SITE (two calls of the same function return two different results)
             sites = self.spec.setdefault("_sites", {}).setdefault(fn, [])
             sid = n.get("id")
